@@ -282,7 +282,17 @@ def check_views(drv, rng, V, stats, n):
         if part in ("controlled_hosts", "known_hosts"):
             getattr(u, part).symmetric_difference_update({x})
         elif part == "known_networks":
-            u.known_networks.symmetric_difference_update({Network(rand_ip(rng), 24)})
+            wide = sorted((n for n in u.known_networks if n.mask < 32), key=str)
+            if wide and rng.random() < 0.5:
+                # the same prefix written with different host bits is a different element (networks are compared as written)
+                import ipaddress
+                n0 = rng.choice(wide)
+                flipped = str(ipaddress.IPv4Address(int(ipaddress.IPv4Address(str(n0.ip))) ^ rng.choice([1, 1 << rng.randrange(0, 32 - n0.mask)])))
+                u.known_networks.discard(n0)
+                u.known_networks.add(Network(flipped, n0.mask))
+                stats["hostbit_pairs"] = stats.get("hostbit_pairs", 0) + 1
+            else:
+                u.known_networks.symmetric_difference_update({Network(rand_ip(rng), 24)})
         else:
             tbl = getattr(u, part)
             elem = {"known_services": Service("s", "t", "v", True), "known_data": Data("o", "i"), "known_blocks": IP("9.9.9.9")}[part]
@@ -343,6 +353,7 @@ def main(prop, tier):
                 CC.run_sessions(drv, rng, info["tables"]["defender"], on_fail, coord_stats, 30 if q else 300, 40,
                                 {"burst": 0.1, "long_names": 0.2, "early_reset": 0.05})
                 CC.directed_long_episode(drv, rng, info["tables"]["defender"], on_fail, coord_stats, 2 if q else 20)
+                CC.directed_find_services(drv, rng, info["tables"]["defender"], on_fail, coord_stats, 6 if q else 60)
         finally:
             drv.close()
     code, nviol = V.finish()
